@@ -1,6 +1,7 @@
 #!/bin/sh
 # usage: tools/seedtest.sh <seed-dir-name> <check-id> [tier]   -- applies seeded/<name>/patch.diff to /repo, runs the check, reverts.
 set -u
+export VERIF_EVIDENCE_DIR=/var/tmp/vopy-verif-seed-evidence     # runs against a seeded change never replace real evidence
 S=/verif/seeded/$1; ID=$2; TIER=${3:-quick}
 git -C /repo diff --quiet || { echo "/repo is dirty, refusing"; exit 2; }
 git -C /repo apply "$S/patch.diff" || { echo "patch does not apply"; exit 2; }
